@@ -184,3 +184,93 @@ Section View.
     Qed.
   End Chain.
 End View.
+
+(* ---------------------------------------------------------------- collision extraction (no hypothesis on H) *)
+(* two records of decodable transactions with one id: either they agree in every signed field and the origin, or an explicit
+   collision of H among the strings hashed for them is exhibited *)
+Definition collision_in (H : bytes -> bytes) (P : bytes -> Prop) : Prop := exists a b, P a /\ P b /\ a <> b /\ H a = H b.
+
+Theorem view_id_extract H t1 t2 o1 o2 : wfp c_tx t1 -> wfp c_tx t2 -> length o1 = length o2 ->
+  CM.tx_id (view H t1 o1) = CM.tx_id (view H t2 o2) ->
+  (signed_part t1 = signed_part t2 /\ o1 = o2 /\ view H t1 o1 = view H t2 o2) \/
+  collision_in H (fun a => a = go_signing_tx t1 \/ a = go_signing_tx t2 \/
+                           a = go_tx_signing_hash H t1 ++ o1 \/ a = go_tx_signing_hash H t2 ++ o2).
+Proof.
+  intros W1 W2 Hl E. pose proof E as E0. cbn [view CM.tx_id] in E. apply code_inj in E. cbn [go_tx_id] in E.
+  destruct (list_eq_dec N.eq_dec (go_tx_signing_hash H t1 ++ o1) (go_tx_signing_hash H t2 ++ o2)) as [e|n].
+  2:{ right. exists (go_tx_signing_hash H t1 ++ o1), (go_tx_signing_hash H t2 ++ o2). auto 10. }
+  apply app_inj_len in e; [|exact Hl]. destruct e as [e ->]. unfold go_tx_signing_hash in e.
+  destruct (list_eq_dec N.eq_dec (go_signing_tx t1) (go_signing_tx t2)) as [e'|n].
+  2:{ right. exists (go_signing_tx t1), (go_signing_tx t2). auto 10. }
+  left. pose proof (go_signing_injective_l t1 t2 W1 W2 e') as Sp. split; [exact Sp|]. split; [reflexivity|].
+  destruct (view_of_signed_part H t1 t2 o2 Sp) as (A & B & C & D).
+  cbn [view CM.tx_tag CM.tx_ref CM.tx_exp CM.tx_dep CM.tx_id] in *. unfold view. rewrite E0, A, B, C, D. reflexivity.
+Qed.
+
+(* ---------------------------------------------------------------- the same with collision-freeness only ON THE PREIMAGES *)
+(* H_inj above quantifies over all byte strings (C11's form), which no function with 32-byte outputs satisfies.  Nothing in the
+   argument needs that much: for ANY set S of (transaction, origin) pairs — say, those a node ever decodes — it is enough that H
+   is collision-free on the strings actually hashed for S: the SigningHash() preimages and the ID() preimages
+   signing hash ++ origin.  C09's universe is then the records of S; a finite S makes the hypothesis satisfiable by a function
+   that is not injective (TxIdBindExamples: a truncating H). *)
+Section OnPreimages.
+  Variable H : bytes -> bytes.
+  Variable S : tx -> bytes -> Prop.
+
+  Definition hashed (a : bytes) : Prop :=
+    exists t o, S t o /\ (a = go_signing_tx t \/ a = go_tx_signing_hash H t ++ o).
+  Definition c11_universe_on (tr : CM.txrec) : Prop :=
+    exists t o, S t o /\ wfp c_tx t /\ length o = 20%nat /\ tr = view H t o.
+
+  Lemma universe_on_sub tr : c11_universe_on tr -> c11_universe H tr.
+  Proof. intros (t & o & _ & W & L & E). exists t, o. auto. Qed.
+
+  Hypothesis H_inj_on : forall a b, hashed a -> hashed b -> H a = H b -> a = b.
+
+  Theorem view_id_binds_on t1 t2 o1 o2 : S t1 o1 -> S t2 o2 -> wfp c_tx t1 -> wfp c_tx t2 -> length o1 = length o2 ->
+    CM.tx_id (view H t1 o1) = CM.tx_id (view H t2 o2) -> signed_part t1 = signed_part t2 /\ o1 = o2.
+  Proof.
+    intros S1 S2 W1 W2 Hl E. cbn [view CM.tx_id] in E. apply code_inj in E. cbn [go_tx_id] in E.
+    apply H_inj_on in E; [|exists t1, o1; auto|exists t2, o2; auto].
+    apply app_inj_len in E; [|exact Hl]. destruct E as [E ->]. split; [|reflexivity].
+    apply go_signing_injective_l; [exact W1 | exact W2 |].
+    apply H_inj_on; [exists t1, o2; auto|exists t2, o2; auto|exact E].
+  Qed.
+
+  Theorem c11_universe_on_inj : forall t1 t2, c11_universe_on t1 -> c11_universe_on t2 -> CM.tx_id t1 = CM.tx_id t2 -> t1 = t2.
+  Proof.
+    intros r1 r2 (t1 & o1 & S1 & W1 & L1 & ->) (t2 & o2 & S2 & W2 & L2 & ->) E.
+    assert (Hl : length o1 = length o2) by congruence.
+    destruct (view_id_binds_on t1 t2 o1 o2 S1 S2 W1 W2 Hl E) as [Sp ->].
+    destruct (view_of_signed_part H t1 t2 o2 Sp) as (A & B & C & D).
+    cbn [view CM.tx_tag CM.tx_ref CM.tx_exp CM.tx_dep CM.tx_id] in *. unfold view. rewrite E, A, B, C, D. reflexivity.
+  Qed.
+
+  Section ChainOn.
+    Variables g gp tag : N.
+    Hypothesis Hg : CM.num_of g = 0.
+    Hypothesis Hgp : CM.num_of gp = CM.max_u32.
+
+    Theorem accepted_chain_inv_c11_on r : CP.reachable g gp tag (CI.accepted c11_universe_on) r -> forall h, CP.stored r h ->
+      (forall a t, CP.anc r h a -> CI.tx_in r a t ->
+         c11_universe_on t /\ CM.tx_tag t = tag /\ CM.tx_ref t <= CM.num_of a /\ CM.num_of a <= CM.tx_ref t + CM.tx_exp t) /\
+      (forall a1 t1 a2 t2, CP.anc r h a1 -> CP.anc r h a2 -> CI.tx_in r a1 t1 -> CI.tx_in r a2 t2 ->
+         CM.tx_id t1 = CM.tx_id t2 -> a1 = a2) /\
+      (forall a s b, CP.anc r h a -> CM.get_block r a = Some (s, b) -> NoDup (map CM.tx_id (CM.b_txs b))).
+    Proof. intros R h Sh. exact (CI.accepted_chain_ok g gp tag c11_universe_on c11_universe_on_inj Hg Hgp r R h Sh). Qed.
+
+    Theorem has_tx_paths_agree_on_accepted_c11_on r : CP.reachable g gp tag (CI.accepted c11_universe_on) r ->
+      forall h t o, CP.stored r h -> S t o -> wfp c_tx t -> length o = 20%nat ->
+        let x := view H t o in
+        exists v, CM.has_transaction r h (CM.tx_id x) (CM.tx_ref x) = CM.Ok v /\ CM.has_tx_indexed r h (CM.tx_id x) = CM.Ok v /\
+                  (CM.tx_ref x <= CM.num_of h -> CM.num_of h - CM.tx_ref x < 100 ->
+                   CM.recent_walk r (CM.tx_id x) (CM.tx_ref x) 102 h = CM.Ok v) /\
+                  (v = true <-> exists a, Chain.ProofsTx.incl_on r h (CM.tx_id x) a).
+    Proof.
+      intros R h t o Sh St W Ho x.
+      apply (CI.accepted_paths_agree g gp tag c11_universe_on c11_universe_on_inj Hg Hgp r R h x Sh).
+      exists t, o. auto.
+    Qed.
+  End ChainOn.
+End OnPreimages.
+
